@@ -696,3 +696,73 @@ def s_call_op(ctx):
 
 SCENARIOS.append(Scenario("C18.builder.call_op", s_call_op, [("onnxscript/_internal/tape_builder.py", "BuilderBase.call_op")],
                           trusted=["ir.Node(domain, op_type, inputs, attributes=, outputs= | num_outputs=, version=, name=) (onnx_ir)"]))
+
+
+def s_builder_call_inline(ctx):
+    """GraphBuilder.call_inline: the function body is instantiated on the SAME operands `call` would give the call node
+    (Python literals promoted to values first), every cloned node is added once and in order, intermediate value names
+    are qualified, the results carry the requested names, and a prefix scope is popped again."""
+    import onnx_ir as ir
+    import onnxscript
+    b = _b()
+    from onnxscript._internal import _inliner
+    I = Interp(ctx)
+    G = b.GraphBuilder
+    fn = SObj(ir.Function, "function")
+    g = SObj(ir.Graph, "fn_graph")
+    n_out = 1 + ctx.choose(2, "function outputs")
+    g.fields["outputs"] = [Opaque(f"fo{i}") for i in range(n_out)]
+    fn.fields.update(name="fn", domain="d", overload="", graph=g)
+    graph = SObj(object, "graph")
+
+    def num_nodes():
+        raise AssertionError
+    I.models[num_nodes] = lambda interp: 3
+    graph.fields["num_nodes"] = num_nodes
+    gb = new_builder(I, (), graph)
+    I.models[G._input_to_ir_value] = lambda interp, slf, v, *a: ("adapted", v)
+    I.models[G._qualify_value_name] = lambda interp, slf, nm: "q:" + nm
+    I.models[G._qualify_node_name] = lambda interp, slf, nm: "qn:" + nm
+    inst = []
+    outs = []
+    for i in range(n_out):
+        v = SObj(ir.Value, f"res{i}")
+        v.fields["name"] = f"res{i}"
+        outs.append(v)
+    inner = SObj(ir.Value, "inner")
+    inner.fields["name"] = "tmp"
+    n1, n2 = SObj(ir.Node, "c1"), SObj(ir.Node, "c2")
+    n1.fields["outputs"] = [inner]
+    n2.fields["outputs"] = list(outs)
+
+    def m_inst(interp, graph_, inputs, attrs, prefix=""):
+        inst.append((graph_, list(inputs), dict(attrs), prefix))
+        return [n1, n2], list(outs)
+    I.models[_inliner.instantiate] = m_inst
+    added = []
+    I.models[G.add_node] = lambda interp, slf, n: added.append(n)
+    names = [f"want{i}" for i in range(n_out)] if ctx.choose(2, "output names requested") == 1 else None
+    prefix = "pfx" if ctx.choose(2, "prefix given") == 1 else ""
+    x = SObj(ir.Value, "x")
+    kw = {"_outputs": names, "_prefix": prefix}
+    try:
+        r = I.run_closure(I.closure_of(G.call_inline), [gb, fn, x, 2.5], kw)
+    except PyRaise as e:
+        ctx.check("C18.builder.call_inline.returns_normally", False, CL_UNIQ)
+        return
+    ok = len(inst) == 1 and inst[0][0] is g
+    ctx.check("C18.builder.call_inline.body_instantiated_once", ok, "C18: 'Inlining a function gives the same results as calling it'")
+    if not ok:
+        return
+    ctx.check("C18.builder.call_inline.operands_are_promoted_like_the_operands_of_a_call_node", inst[0][1] == [("adapted", x), ("adapted", 2.5)],
+              "C18: 'with Python literals as operands' / 'Inlining a function gives the same results as calling it' — call() promotes literals to values")
+    ctx.check("C18.builder.call_inline.cloned_nodes_added_once_in_order", added == [n1, n2], "C18: 'computes exactly the sequence of operator calls that was traced'")
+    ctx.check("C18.builder.call_inline.intermediate_value_names_are_qualified", inner.fields["name"] == "q:tmp", CL_UNIQ)
+    want_names = [f"q:want{i}" for i in range(n_out)] if names else [f"q:res{i}" for i in range(n_out)]
+    ctx.check("C18.builder.call_inline.results_carry_the_requested_names_else_their_qualified_names", [o.fields["name"] for o in outs] == want_names, CL_UNIQ)
+    ctx.check("C18.builder.call_inline.prefix_scope_is_popped", gb.fields["_scope_stack"] == [], "C18: module scopes are balanced")
+    ctx.check("C18.builder.call_inline.returns_the_results", (r is outs[0]) if n_out == 1 else (list(r) == outs), "C18")
+
+
+SCENARIOS.append(Scenario("C18.builder.call_inline", s_builder_call_inline, F(GB + "call_inline"),
+                          trusted=["_inliner.instantiate(graph, inputs, attributes, prefix) clones the body on the given operands (onnx_ir Cloner)"]))
